@@ -41,7 +41,7 @@ Print Assumptions C03_nonempty_cpuset_partial.
 
 (* ... and it is still false for zero-request containers: AllocateCPU tests nothing for a request without CPUs, so a
    BestEffort container can be placed in a pool whose sharable CPUs were all taken exclusively at the pool above while
-   it was empty (known finding K10; the reinstatement variant of it is refused now: k10_reserve_refused). *)
+   it was empty (known finding K10). *)
 Theorem C03_nonempty_cpuset_refuted :
   tree_wfb2 k10a_tree = true /\ forallb nonneg_reserve k10a_ops = true /\
   match run k10a_tree (init k10a_tree) k10a_ops with
@@ -49,6 +49,17 @@ Theorem C03_nonempty_cpuset_refuted :
   | Err _ => False end.
 Proof. exact nonempty_refuted. Qed.
 Print Assumptions C03_nonempty_cpuset_refuted.
+
+(* ... and by reinstatement: a grant taking the last sharable CPUs of its pool is refused when the BestEffort container
+   of the pool was reinstated before it, and goes through -- leaving that container an empty cpuset -- when it is
+   reinstated after it (K10; the order is that of a Go map) *)
+Theorem C03_nonempty_cpuset_reinstatement_order :
+  run k10_tree (init k10_tree) [ OReserve 6 k10_g6; OReserve 1 k10_g1 ] = Err (ErrGuard 13) /\
+  match run k10_tree (init k10_tree) k10_ops with
+  | Ok s => bool_decide (told_cpus k10_tree s k10_g6 = ∅) = true
+  | Err _ => False end.
+Proof. exact k10_reserve_order. Qed.
+Print Assumptions C03_nonempty_cpuset_reinstatement_order.
 
 (* the per-pool ledgers equal the sums of the portions of the pool's grants, for all histories *)
 Theorem C03_ledger_exact : forall t os s, run t (init t) os = Ok s ->
